@@ -316,6 +316,10 @@ def cases(thorough):
                                                          "star"],
                   directed=[0], w=[1]):
         out.append(["network", p])
+    #  link-sized work arrays shorter than node-sized ones (2 n_links < N)
+    for p in grid(n=[12, 40, 150] if big else [12, 40],
+                  kind=["empty", "forest"], directed=[0, 1], w=[1]):
+        out.append(["network", p])
     for p in grid(n=[10, 12, 17] + ([33, 40] if big else []),
                   kind=["cycle", "star", "complete"], complex=[False]):
         out.append(["res", p])
